@@ -5,6 +5,7 @@ package main
 
 import (
 	"bytes"
+	"fmt"
 	"github.com/golang/protobuf/proto"
 	"github.com/idena-network/idena-go/blockchain/types"
 	"github.com/idena-network/idena-go/common"
@@ -28,8 +29,12 @@ func buildCorpus(nd *node) []corpusItem {
 	var items []corpusItem
 	add := func(code, name string, payload []byte) {
 		if payload != nil {
-			items = append(items, corpusItem{code, name, payload})
+			items = append(items, corpusItem{code: code, name: name, payload: payload})
 		}
+	}
+	// delivered as they are, not mutated further (the mutations of the plain proposal cover the byte level)
+	addPlain := func(code, name string, payload []byte) {
+		items = append(items, corpusItem{code: code, name: name, payload: payload, plain: true})
 	}
 	// transactions: every menu template that builds on this state (each tx type several times)
 	b := world.NewB(r)
@@ -65,6 +70,32 @@ func buildCorpus(nd *node) []corpusItem {
 	add("ProposeBlock", "block proposal", mustBytes(prop.ToBytes()))
 	empty := r.Empty()
 	add("Block", "empty block", mustBytes(empty.ToBytes()))
+	// honestly signed but semantically hostile block proposals: the proposer's own block with one header flag bit
+	// toggled and every kind of OfflineAddr (absent, an online validator, an online pool, an unknown address),
+	// re-signed by the proposer - the message passes the gossip-level IsValid() and reaches the proposal validators
+	// (ValidateHeader, OfflineDetector.ValidateBlock, ...) on the peer goroutine
+	if ph := prop.Block.Header.ProposedHeader; ph != nil {
+		addrOf := func(i int) *common.Address { a := world.A(i); return &a }
+		unknown := common.Address{0xee, 0x01}
+		offs := []struct {
+			n string
+			a *common.Address
+		}{{"no offline addr", nil}, {"offline addr V1", addrOf(world.V1)}, {"offline addr V2", addrOf(world.V2)}, {"offline addr P", addrOf(world.P)}, {"offline addr unknown", &unknown}}
+		for bit := uint(0); bit < 12; bit++ {
+			for _, oa := range offs {
+				if bit >= 10 && oa.a != nil && oa.n != "offline addr V1" {
+					continue
+				}
+				cp := *ph
+				cp.Flags = ph.Flags ^ types.BlockFlag(1<<bit)
+				cp.OfflineAddr = oa.a
+				hp := &types.BlockProposal{Block: &types.Block{Header: &types.Header{ProposedHeader: &cp}, Body: prop.Block.Body}, Proof: proof}
+				hh := crypto.SignatureHash(hp)
+				hp.Signature = r.Sec.Sign(hh[:])
+				addPlain("ProposeBlock", fmt.Sprintf("honestly signed proposal, flag bit %d toggled, %s", bit, oa.n), mustBytes(hp.ToBytes()))
+			}
+		}
+	}
 	pp := &types.ProofProposal{Proof: proof, Round: prop.Height()}
 	h := crypto.SignatureHash(pp)
 	pp.Signature = r.Sec.Sign(h[:])
